@@ -137,6 +137,40 @@ def verify_function(repo, registry, qualname, only_variant=None):
     return rep
 
 
+def lemma_obligations(repo, registry, qualname):
+    """`lemma(expr)` clauses: facts about the contract's own vocabulary that do not depend on the code
+    (obligation: requires => expr, for every type variant)."""
+    c = registry.get(qualname)
+    if not c.lemmas:
+        return []
+    ptypes = c.param_types()
+    alts = [t.expand() for _, t in ptypes]
+    short = qualname.replace("pyrepseq.", "")
+    out = []
+    combos = list(itertools.product(*alts)) if alts else [()]
+    for vi, combo in enumerate(combos):
+        vtag = f"[v{vi}]" if len(combos) > 1 else ""
+        for cl in c.lemmas:
+            ctx = Ctx()
+            interp = make_interp(repo, ctx, registry)
+            interp.current_contract = c
+            interp.current_qualname = qualname
+            try:
+                bound = {}
+                for (pname, _), ty in zip(ptypes, combo):
+                    bound[pname] = ty.fresh(pname, ctx)
+                    ctx.inputs[pname] = (ty, bound[pname])
+                env = c.spec_env(interp, bound)
+                for r in c.requires:
+                    ctx.assume(interp.as_bool_term(c.eval_spec(interp, r.expr, env)))
+                t = interp.as_bool_term(c.eval_spec(interp, cl.expr, env))
+                ctx.oblige(f"{short}{vtag}/lemma[{cl.name}]", t, kind="lemma", function=qualname, variant=vtag)
+                out.extend(ctx.obligs)
+            except PathAbort:
+                continue
+    return out
+
+
 def reachability(repo, registry, qualname):
     """Non-vacuity: the conjunction of the pre-conditions must be satisfiable (per variant)."""
     c = registry.get(qualname)
